@@ -313,6 +313,31 @@ class Prop(object):
         for pflags, subflags in ((0x03, []), (0x01, [0x02, 0x0C]), (0x2F, [0x2F, 0x2F]), (0x01, [None]), (0x00, [0x00]), (None, [0x04])):
             blob, prim, subs = build_key(pflags, subflags)
             self._ops(r, blob, prim, subs, [pflags] + subflags, 'flags %r / %r' % (pflags, subflags), {'part': 'preconditions'}, dict(case, cfg=[pflags, subflags]))
+        # private operations that carry no usage flag must refuse on public and locked forms as well
+        blob, prim, subs = build_key(0x2F, [0x2F])
+        for form in ('public', 'locked'):
+            key = pgpy.PGPKey.from_blob(blob)[0]
+            if form == 'locked':
+                key.protect(PW, SymmetricKeyAlgorithm.AES128, HashAlgorithm.SHA256)
+                obj = key
+            else:
+                obj = key.pubkey
+            other0 = K.pgpy_cert('ed25519b', uid='O <o@example.org>')[0].pubkey
+            lit = wire.packet(11, rmsg.literal_body('b', b'', 0, b'x'))
+            sk0 = bytes(range(16))
+            enc0 = pgpy.PGPMessage.from_blob(wire.packet(1, renc.pkesk_body(prim, 7, sk0)) + wire.packet(18, renc.seipd_encrypt(7, sk0, lit)))
+            sub0 = list(obj.subkeys.values())[0]
+            for name, fn in (('revoke-key', lambda: obj.revoke(obj)), ('revoke-subkey', lambda: obj.revoke(sub0)), ('revoke-uid', lambda: obj.revoke(obj.userids[0])),
+                             ('revoker', lambda: obj.revoker(other0)), ('bind', lambda: obj.bind(sub0)), ('decrypt', lambda: obj.decrypt(enc0)),
+                             ('subkey-sign', lambda: sub0.sign(b'x')), ('subkey-decrypt', lambda: sub0.decrypt(enc0))):
+                r.states += 1
+                r.transitions += 1
+                try:
+                    fn()
+                    r.outcomes['flagless-op:done'] += 1
+                    r.viol('precondition', {'kind': 'precondition', 'op': name, 'form': form}, case, '%s on a %s key did not refuse' % (name, form))
+                except Exception:
+                    r.outcomes['flagless-op:refused'] += 1
         # a key without identity refuses everything but its first self-certification
         raw = K.raw('ed25519a', K.T0)
         bare = K.pgpy_secret(raw)
